@@ -225,6 +225,24 @@ def level_slice_obligations(P):
         for g, out in zip(G, v.items[1].items):
             w = alg.fn("at", g.sym, lev, alg.fn("idx", ny, integer=True), alg.fn("idx", nx, integer=True), pos=g.elempos)
             obs.append(eq_ob("R-LEVEL", site, "coordinate %s handed on is %s[level]%s" % (g.name, g.name, tag), out.val if isinstance(out, Arr) else out, w, key={"what": g.name}))
+    # a stack of levels over coordinates that describe one level (a 2-D meshgrid or 1-D axes): the field is sliced all the same,
+    # the coordinates pass through
+    for nd, shapes in ((2, [(ny, nx)] * 3), (1, [(nx,), (ny,), (nz,)])):
+        G2 = [SymArr(n + str(nd), nd, shape=shp) for n, shp in zip(("Xc", "Yc", "Zc"), shapes)]
+        try:
+            res2 = CM.run_paths(P, "bldfm.plotting._common", "_maybe_slice_level", [F, Tup(G2)], {"level": lev})
+        except AnalysisError as e:
+            obs.append(req_ob("R-LEVEL", site, "the level helper is interpretable for %d-D coordinates" % nd, None, detail=str(e)))
+            continue
+        for r in [r for r in res2 if r.kind == "return"]:
+            v = r.value
+            if not (isinstance(v, Tup) and len(v.items) == 2 and isinstance(v.items[0], Arr)):
+                obs.append(req_ob("R-LEVEL", site, "returns (field, grid) for %d-D coordinates" % nd, None, detail=repr(v)[:200]))
+                continue
+            want = alg.fn("at", F.sym, lev, alg.fn("idx", ny, integer=True), alg.fn("idx", nx, integer=True), pos=F.elempos)
+            obs.append(eq_ob("R-LEVEL", site, "a 3-D field over %d-D coordinates is reduced to field[level]" % nd, v.items[0].val, want, key={"what": "field", "coords": nd}))
+            same = isinstance(v.items[1], Tup) and len(v.items[1].items) == 3 and all(a is b for a, b in zip(v.items[1].items, G2))
+            obs.append(req_ob("R-LEVEL", site, "%d-D coordinates pass through unchanged" % nd, same, key={"what": "grid", "coords": nd}))
     return obs
 
 
